@@ -277,6 +277,8 @@ package graphsync
 //@ func (*graphsync.dtChannel).open {C20}
 //@   ensures [previous-request-cancelled-first] {C10} all(GraphExchange.Request, c.requestID == nil || c.requesterCancelled)
 //@       -- when the new graphsync request is issued the channel has no live request of its own: it was cancelled (and forgotten) first, or the requester had cancelled it
+//@   ensures [failed-cancel-aborts] {C10} count(selectrecv, calls(dtChannel.cancel) == 1 && $0 == ret(dtChannel.cancel, 0) && $r0 != nil) >= 1 ==> never(GraphExchange.Request) && err != nil && result0 == nil
+//@       -- when the previous request could not be cancelled (the cancel goroutine answered with an error) no second request is started for the channel
 //@   ensures [one-request] {C10} calls(GraphExchange.Request) <= 1 && all(GraphExchange.Request, $2 == dataSender && $3 == root && $4 == stor)
 //@   ensures [opened-means-tracked] {C10,C16} err == nil ==> result0 != nil && c.isOpen && c.requestID != nil && (*result0).channelID == chid && calls(GraphExchange.Request) == 1
 //@   requires ctx != nil
@@ -289,6 +291,7 @@ package graphsync
 //@       -- completing the graphsync request closes the channel that a restart (dtChannel.open) and shutdown wait on before re-opening
 //@ func (*graphsync.dtChannel).close {C09,C20}
 //@   ensures [no-live-request-after-close] {C09} c.requestID == nil || c.requesterCancelled -- closing always cancels (and forgets) a live request
+//@   ensures [waits-unlocked] {C09,C20} all(selectrecv, !held(c.lk)) -- the answer of the cancel is awaited after the channel lock is released: graphsync serves request hooks (which take that lock) and cancels on one loop, so waiting with the lock held can block for ever
 //@   prompt {C09} -- closing returns promptly whatever the state of the request: every wait has an answer promised
 //@   requires ctx != nil
 //@   modifies c.requestID
